@@ -417,3 +417,23 @@ PROPS["C04"] = pbt(
     thorough={"cases": 3000000, "fuzz_runs": 2000000, "fuzz_jobs": 8},
     floors={"parsed_with_entries": 0.40, "rejected_with_parse_error": 0.05, "merged_pair": 0.15, "edited": 0.30},
 )
+
+PROPS["C19"] = pbt(
+    "pbt_c19", "pbt_c19.cpp", econftool=True,
+    rule=("two-layer trees under $ECONFTOOL_ROOT (usr/etc, etc; main files, drop-ins, masking, links) whose contents are "
+          "group-less only / sections only / both, with multi-line values, optionally one malformed member; command "
+          "in {show, syntax, cat} plus show on a single absolute file; --delimiters in {default, '=', ' ', ' \\t', "
+          "spaces, a 100-2000 character string with escapes}, --comment in {default, ';'}. The tool runs on a "
+          "pseudo-terminal (stdout and stderr in program order); the same tree is read in-process with "
+          "econf_readDirs / econf_readFile / econf_readDirsHistory. Oracle: show = the library's (section, key, value "
+          "lines) sequence, group-less keys included, nothing extra; exit status != 0 iff the library fails; syntax "
+          "names the library's error location and message; cat = (path, content) of every history member in order; no "
+          "sanitizer report from the tool. evaluations = tool runs; non-trivial = tree with group-less keys, >=2 files "
+          "or a malformed file; distinct = tree shape + options"),
+    technique="property-based differential testing: tool output (subprocess on a pty) vs the library on the same generated tree, rapidcheck",
+    level_text="differential oracle between econftool and the library on generated trees; 3k (quick) / 100k (thorough) trees, 1-2 tool runs each.",
+    level_note="the tool is compiled from /repo/util/econftool.c with ASan/UBSan against the same library objects; keys and values avoid ' = ' so that the output parses unambiguously",
+    quick={"cases": 3200},
+    thorough={"cases": 100000},
+    floors={"groupless_only": 0.12, "groupless_and_sections": 0.15, "malformed_file": 0.08, "cmd_cat": 0.15, "cmd_syntax": 0.2},
+)
